@@ -632,10 +632,16 @@ def established_case(ctx, scenario_idx, lose_at, partial, case):
                     # retry-on-failure: the failure handler of this call issues another call on the same connection
                     # (when that happens while the lost connection is failing its calls, the new one is outstanding on
                     # a dead connection and must be failed by the same loss as well)
-                    def retry(f_, t_=a['timeout']):
+                    # ... and a retry that fails is retried in turn, up to a few attempts
+                    attempts = 1 + (scenario_idx // 5) % 3
+
+                    def retry(f_, t_=a['timeout'], left=attempts):
                         kw_ = {'timeout': 2.5} if t_ else {}
-                        reentrant.append(clientfix.Outcome(conn.callRemote(
-                            '/obj', 'Retry', interface='org.verif.I', destination='org.verif.P', **kw_)))
+                        d_ = conn.callRemote('/obj', 'Retry', interface='org.verif.I', destination='org.verif.P', **kw_)
+                        if left > 1:
+                            d_.addErrback(retry, t_, left - 1)
+                            ctx.count('retries_that_retry_in_turn')
+                        reentrant.append(clientfix.Outcome(d_))
                         retried.append(a['idx'])
                         return f_
                     d.addErrback(retry)
@@ -692,8 +698,17 @@ def established_case(ctx, scenario_idx, lose_at, partial, case):
                     def goodbye(c_, reason_):
                         for t_ in (None, 3.0):
                             kw_ = {'timeout': t_} if t_ else {}
-                            reentrant.append(clientfix.Outcome(c_.callRemote(
-                                '/obj', 'Goodbye', interface='org.verif.I', destination='org.verif.P', **kw_)))
+                            d_ = c_.callRemote('/obj', 'Goodbye', interface='org.verif.I', destination='org.verif.P', **kw_)
+                            if scenario_idx % 2 and t_:
+                                # (it insists once when that fails)
+                                def again(f_):
+                                    reentrant.append(clientfix.Outcome(c_.callRemote(
+                                        '/obj', 'GoodbyeAgain', interface='org.verif.I', destination='org.verif.P',
+                                        timeout=4.0)))
+                                    ctx.count('calls_reissued_from_a_goodbye_failure')
+                                    return f_
+                                d_.addErrback(again)
+                            reentrant.append(clientfix.Outcome(d_))
                     conn.notifyOnDisconnect(goodbye)
             elif kind == 'proxy-explicit':
                 attach_proxy(a['idx'], conn.getRemoteObject('org.verif.P', '/obj', explicit))
